@@ -3,7 +3,7 @@
    Ints are Z constrained by in64; float results are opaque (no floating-point reasoning here). *)
 (* Floats is deliberately not imported here: the primitive float operations then print fully qualified
    (PrimFloat.add ...) in Print Assumptions, which lists kernel primitives under "Axioms:". *)
-From Miller Require Import Base.Bytes C06.Model C07.Model C07.Proofs C07.ProofsBits C07.ProofsInt C07.ProofsPow C07.ProofsMod C07.ProofsPanic C07.ProofsWit C07.ProofsMixed C07.ProofsConv.
+From Miller Require Import Base.Bytes C06.Model C07.Model C07.Proofs C07.ProofsBits C07.ProofsInt C07.ProofsPow C07.ProofsTimes C07.ProofsMod C07.ProofsPanic C07.ProofsWit C07.ProofsMixed C07.ProofsConv.
 Open Scope Z_scope.
 
 (* ---- + and - : exact when the result fits ---- *)
@@ -42,9 +42,14 @@ Theorem C07_minus_never_wraps :
 Proof. exact minus_int_is_exact. Qed.
 Print Assumptions C07_minus_never_wraps.
 
-(* ---- * : float-magnitude threshold, then the integer product verified by dividing it back (/repo 948308289).
-   An int result is the exact product and an overflowing product is a float, for ALL int64 operands.  What remains
-   false is "exact whenever it fits": within 1024 of 2^63 the documented threshold heuristic answers with a float ---- *)
+(* ---- * : the exact product whenever it fits in 64 bits, the float product of the converted operands otherwise, for ALL
+   int64 operands (/repo fix: the 128-bit product of the magnitudes by math/bits.Mul64 decides; formerly a float-magnitude
+   threshold answered with a float within 1024 of 2^63: C07_times_exact_when_fits_refuted at (2^63-1)*1) ---- *)
+Theorem C07_times_exact_when_fits :
+  forall a b, in64 a = true -> in64 b = true -> in64 (a * b) = true -> eval_bin OTimes (NInt a) (NInt b) = RInt (a * b).
+Proof. exact times_exact. Qed.
+Print Assumptions C07_times_exact_when_fits.
+
 Theorem C07_times_never_wraps :
   forall a b n, in64 a = true -> in64 b = true -> eval_bin OTimes (NInt a) (NInt b) = RInt n -> n = a * b.
 Proof. exact times_int_is_exact. Qed.
@@ -56,10 +61,22 @@ Theorem C07_times_overflows_to_float :
 Proof. exact times_overflow_is_float. Qed.
 Print Assumptions C07_times_overflows_to_float.
 
-Theorem C07_times_exact_when_fits_refuted :
-  exists a b f, in64 a = true /\ in64 b = true /\ in64 (a * b) = true /\ eval_bin OTimes (NInt a) (NInt b) = RFloat f.
-Proof. exact times_float_when_fits_witness. Qed.
-Print Assumptions C07_times_exact_when_fits_refuted.
+Theorem C07_times_int_iff_product_fits :
+  forall a b, in64 a = true -> in64 b = true -> ((exists n, eval_bin OTimes (NInt a) (NInt b) = RInt n) <-> in64 (a * b) = true).
+Proof. exact times_int_iff_fits. Qed.
+Print Assumptions C07_times_int_iff_product_fits.
+
+Theorem C07_times_former_defect_witnesses :
+  eval_bin OTimes (NInt 9223372036854775807) (NInt 1) = RInt 9223372036854775807
+  /\ eval_bin OTimes (NInt (-2147483648)) (NInt 4294967296) = RInt min_int64
+  /\ eval_bin OTimes (NInt 3037000499) (NInt 3037000499) = RInt 9223372030926249001
+  /\ eval_bin OTimes (NInt min_int64) (NInt 1) = RInt min_int64
+  /\ eval_bin OTimes (NInt (-1)) (NInt min_int64) = RFloat (PrimFloat.mul (i2f (-1)) (i2f min_int64))
+  /\ eval_bin OTimes (NInt 2147483648) (NInt 4294967296) = RFloat (PrimFloat.mul (i2f 2147483648) (i2f 4294967296))
+  /\ eval_bin OTimes (NInt (-2)) (NInt (-4611686018427387904)) = RFloat (PrimFloat.mul (i2f (-2)) (i2f (-4611686018427387904)))
+  /\ bits_of_f (PrimFloat.mul (i2f 2147483648) (i2f 4294967296)) = float_of_int two63.
+Proof. exact times_band_witnesses. Qed.
+Print Assumptions C07_times_former_defect_witnesses.
 
 (* ---- / : exact quotient when one exists (and fits), float otherwise ---- *)
 Theorem C07_divide_exact_quotient :
@@ -72,6 +89,25 @@ Theorem C07_divide_inexact_is_float :
   forall a b, b <> 0 -> (forall q, a <> b * q) -> eval_bin ODivide (NInt a) (NInt b) = RFloat (PrimFloat.div (i2f a) (i2f b)).
 Proof. exact divide_inexact_float. Qed.
 Print Assumptions C07_divide_inexact_is_float.
+
+(* an int result exactly when the divisor divides the dividend and the quotient fits (6/2 is int 3, 7/2 is float 3.5) *)
+Theorem C07_divide_int_iff_divisible :
+  forall a b n, in64 a = true -> in64 b = true -> b <> 0 ->
+  (eval_bin ODivide (NInt a) (NInt b) = RInt n <-> (a = b * n /\ in64 n = true)).
+Proof. exact (fun a b n Ha Hb Hb0 => divide_int_iff_divisible a b Ha Hb Hb0 n). Qed.
+Print Assumptions C07_divide_int_iff_divisible.
+
+Theorem C07_divide_not_divisible_is_float :
+  forall a b, in64 a = true -> in64 b = true -> b <> 0 -> (forall q, ~ (a = b * q /\ in64 q = true)) ->
+  exists f, eval_bin ODivide (NInt a) (NInt b) = RFloat f.
+Proof. exact divide_float_iff_not_divisible. Qed.
+Print Assumptions C07_divide_not_divisible_is_float.
+
+Theorem C07_divide_examples :
+  eval_bin ODivide (NInt 6) (NInt 2) = RInt 3 /\ (exists f, eval_bin ODivide (NInt 7) (NInt 2) = RFloat f /\ bits_of_f f = 4615063718147915776)
+  /\ eval_bin ODivide (NInt (-6)) (NInt 3) = RInt (-2) /\ eval_bin ODivide (NInt min_int64) (NInt 1) = RInt min_int64 /\ eval_bin ODivide (NInt 0) (NInt 5) = RInt 0.
+Proof. exact divide_examples. Qed.
+Print Assumptions C07_divide_examples.
 
 (* the one exact quotient of two int64s that does not fit, -2^63 / -1 = 2^63, is the float 2^63 for / and // (/repo 0499ffd56) *)
 Theorem C07_divide_min_by_minus_one_is_float :
